@@ -104,11 +104,19 @@ Print Assumptions C16_identity_kept_class.
 (* ... and gets the right bases (C16-e repaired): with a single base that has a counterpart among the old bases,
    the class body runs with - and stores as __bases__ - the RESULT of livepatching (old base, new base), i.e. the old
    base object whenever the base class is itself kept *)
-Theorem C16_class_bases_mapped : forall (rec : recT) stack ob nb s k,
+Theorem C16_class_bases_mapped : forall modname nm (rec : recT) stack ob nb s k,
   same_class_key (class_key (hp s) ob) (class_key (hp s) nb) = true ->
-  map_bases rec stack [ob] [nb] s [] k = bind (rec s stack ob nb) (fun s' u => k s' [u]).
+  map_bases modname nm rec stack [ob] [nb] s [] k = bind (rec s stack ob nb) (fun s' u => k s' [u]).
 Proof. exact map_bases_single. Qed.
 Print Assumptions C16_class_bases_mapped.
+
+(* C16-g repaired: a GAINED base defined in this module is mapped through livepatch with the class of that name in
+   the dict of the module being reloaded (kept class => the old object) *)
+Theorem C16_class_bases_gained : forall modname nm (rec : recT) stack obs nb s k c,
+  find_old_base (hp s) obs nb = None -> gained_counterpart modname nm (hp s) nb = Some c ->
+  map_bases modname nm rec stack obs [nb] s [] k = bind (rec s stack c nb) (fun s' u => k s' [u]).
+Proof. exact map_bases_gained. Qed.
+Print Assumptions C16_class_bases_gained.
 
 Theorem C16_class_bases_stored : forall modname bases_ok nm (rec : recT) stack c_old c_new s mapped n1 m1 cd1 b1 sl1 n2 m2 cd2 b2 sl2,
   lookup (hp s) c_old = Some (OClass n1 m1 cd1 b1 sl1) ->
@@ -250,7 +258,7 @@ Definition nv_heap : heap :=
     (200, OPrim 5 5); (205, OPrim 5 6); (104, OPrim 7 31); (204, OPrim 7 32) ]%N.
 
 Example C16_nonvacuous :
-  match livepatch_module 9%N 4%N (fun _ _ => true) (mkNames 90 91 92 93)%N (S (List.length nv_heap)) nv_heap 1%N 2%N with
+  match livepatch_module 9%N 4%N (fun _ _ => true) (mkNames 90 91 92 93 3)%N (S (List.length nv_heap)) nv_heap 1%N 2%N with
   | Ok s r =>
       r = 1%N /\
       lookup (hp s) 3%N = Some (ODict [(20, 10); (21, 14); (23, 15)])%N /\      (* f kept, g replaced, h gone, k new *)
